@@ -238,7 +238,7 @@ def check_property(prop, tier="quick", seed=0, only=None, procs=None):
     procs = procs or min(16, max(1, len(jobs)))
     if procs > 1 and len(jobs) > 1:
         ctxm = mp.get_context("fork")
-        with ctxm.Pool(procs, maxtasksperchild=8) as pool:
+        with ctxm.Pool(procs) as pool:
             results = pool.map(job, jobs, chunksize=1)
     else:
         results = [job(j) for j in jobs]
